@@ -5,6 +5,7 @@ import TsVerif.C17.Merge
 import TsVerif.C17.MergeMulti
 import TsVerif.C17.Intersect
 import TsVerif.C17.Locals
+import TsVerif.C17.Full
 /-!
 Driver for C17.  Reads the case stream written by `harness/src/bin/c17` and prints one line per case:
 
@@ -32,6 +33,8 @@ structure St where
   html : Option Bytes := some []
   lines : List Nat := []
   err : String := "-"
+  capirc : String := "-"
+  attrMode : Nat := 0
   langof : List Nat := []
   injs : List Inj := []
   locals : List (Nat × Nat × Nat × Nat) := []
@@ -39,6 +42,8 @@ structure St where
   defs : Array LayerDef := #[]
   top : List Nat := []
   lcaps : List LCap := []
+  fdefs : Array Full.FDef := #[]
+  fnews : Array Full.NewEntry := #[]
   irTotal : Nat := 0
   irBad : Nat := 0
   irReal : Nat := 0
@@ -70,7 +75,15 @@ def parseQuads (s : String) : List (Nat × Nat × Nat × Nat) :=
     | [a, b, c, d] => some (natOf a, natOf b, natOf c, natOf d)
     | _ => none
 
-def attrOf (h : Nat) : Bytes := ("class=c" ++ toString h).toUTF8.toList.map (·.toNat)
+/-- The attribute callbacks of the harness (`attr_bytes`): 0 `class=c<h>`, 1 with quotes and `&`,
+2 empty, 3 contains `>` (outside the contract `hattr`). -/
+def attrOfMode (mode h : Nat) : Bytes :=
+  let str : String :=
+    if mode == 1 then "class=\"h" ++ toString h ++ "\" data-q='a&b'"
+    else if mode == 2 then ""
+    else if mode == 3 then "x>y" ++ toString h
+    else "class=c" ++ toString h
+  str.toUTF8.toList.map (·.toNat)
 
 def variantName (o f : Bool) : String :=
   if o && f then "both" else if o then "orig" else if f then "fixed" else "NEITHER"
@@ -90,7 +103,7 @@ def chunksOf (evs : List Ev) (src : Bytes) : List Bytes :=
 
 /-- Compare the model renderer (both decoders) with the implementation's html and line offsets. -/
 def corrRender (s : St) : String × Bool :=
-  let cfg : RCfg := { attr := attrOf, crh := s.crh }
+  let cfg : RCfg := { attr := attrOfMode s.attrMode, crh := s.crh }
   match s.html with
   | none =>
     (if (render lossy cfg s.evs s.src).isNone then "both" else "NEITHER-model-does-not-panic", true)
@@ -117,9 +130,10 @@ def htmlJudge (s : St) : String × String :=
 
 def runRender (s : St) : String :=
   let (corr, _) := corrRender s
-  let (j, cause) := htmlJudge s
+  -- an attribute callback that writes `>` is outside the renderer's contract: correspondence only
+  let (j, cause) := if s.attrMode == 3 then ("skip", "-") else htmlJudge s
   let wf := wellFormed s.src.length s.evs
-  s!"{s.id} kind=R corr={corr} wf={if wf then 1 else 0} judge={j} cause={cause}"
+  s!"{s.id} kind=R attr={s.attrMode} corr={corr} wf={if wf then 1 else 0} judge={j} cause={cause} capirc={s.capirc}"
 
 def maxDepth (evs : List Ev) : Nat :=
   (evs.foldl (fun (p : Nat × Nat) ev => match ev with
@@ -207,6 +221,54 @@ def runLMerge (s : St) : String :=
   let ndef := (s.lcaps.filter fun c => match c.kind with | .defn _ _ _ => true | _ => false).length
   s!"{s.id} kind=K corr={corr} wf={if wf then "ok" else "FAIL"} ncaps={s.lcaps.length} ndef={ndef} nref={nref} depth={maxDepth s.evs} err={s.err}"
 
+def parseTilde (t : String) : Option Rg :=
+  match t.splitOn "~" with
+  | [a, b] => some (natOf a, natOf b)
+  | _ => none
+
+def parseIProp (t : String) : Full.IProp :=
+  if t.startsWith "L" then .lang (natOf (t.drop 1).toString)
+  else if t == "S" then .self
+  else if t == "P" then .parent
+  else if t == "C" then .inclChildren
+  else .other
+
+def parseFKind (k : String) : Full.FKind :=
+  if k.startsWith "I" then
+    match ((k.drop 1).toString).splitOn ";" with
+    | [lc, ct, pr] =>
+      let content : Option INode :=
+        if ct == "n" then none else
+          match (ct.splitOn ":").filterMap parseTilde with
+          | nd :: ch => some { s := nd.1, e := nd.2, children := ch }
+          | [] => none
+      .inj { langCap := if lc == "n" then none else some (natOf lc), content := content,
+             props := if pr == "_" then [] else (pr.splitOn ".").map parseIProp }
+    | _ => .other
+  else
+    match parseLKind k with
+    | .scope i => .scope i
+    | .defn a b c => .defn a b c
+    | .ref a b => .ref a b
+    | .hl h nl => .hl h nl
+    | .other => .other
+
+def parseFCaps (s : String) : List Full.FCap :=
+  if s == "-" then [] else (s.splitOn ",").filterMap fun t => match t.splitOn "-" with
+    | [a, b, nd, k] => some { s := natOf a, e := natOf b, node := natOf nd, kind := parseFKind k }
+    | _ => none
+
+/-- `run fmerge`: the end-to-end model (layers + locals + model-driven injection) vs the real stream. -/
+def runFMerge (s : St) (root : Nat) (top : List Nat) : String :=
+  let n := s.src.length
+  let cx : Full.Ctx := { defs := s.fdefs.toList, news := s.fnews.toList, nKnown := 3, rootLang := root }
+  let (m, fin) := Full.mergeFull cx top n
+  let corr := if decide (m = s.evs) then "ok" else "DIFF"
+  let wf := judgeEvents n s.evs
+  let ninj := (cx.defs.map fun d => (d.caps.filter fun c => match c.kind with | .inj _ => true | _ => false).length).sum
+  let nloc := (cx.defs.map fun d => (d.caps.filter fun c => match c.kind with | .ref _ _ => true | .defn _ _ _ => true | _ => false).length).sum
+  s!"{s.id} kind=F corr={corr} defsin={if Full.defsIn n cx then 1 else 0} refsup={if Full.refsUp cx then 1 else 0} fin={if fin then 1 else 0} wf={if wf then "ok" else "FAIL"} nlayers={cx.defs.length} ninj={ninj} nloc={nloc} depth={maxDepth s.evs} err={s.err}"
+
 /-- `run mmerge`: the multi-layer merge model against the real event stream. -/
 def runMMerge (s : St) : String :=
   let n := s.src.length
@@ -240,6 +302,11 @@ def step (s : St) (line : String) : IO St := do
   | ["langof", l] => return { s with langof := parseNats l }
   | ["inj", l, r] => return { s with injs := s.injs ++ [{ lang := natOf l, ranges := parseRanges r }] }
   | ["locals", p] => return { s with locals := parseQuads p }
+  | ["attr", m] => return { s with attrMode := natOf m }
+  | ["capirc", c] => return { s with capirc := c }
+  | ["capierr", name, got, want] =>
+    IO.println s!"{s.id} kind=E name={name} got={got} want={want} judge={if got == want then "ok" else "FAIL"}"
+    return s
   | ["run", "lossy"] => IO.println (runLossy s); return s
   | ["run", "render"] => IO.println (runRender s); return s
   | ["run", "hl"] => IO.println (runHl s); return s
@@ -248,6 +315,11 @@ def step (s : St) (line : String) : IO St := do
   | ["layer", _, d, c] => return { s with defs := s.defs.push { depth := natOf d, caps := parseRCaps c } }
   | ["top", t] => return { s with top := parseNats t }
   | ["lcaps", c] => return { s with lcaps := parseLCaps c }
+  | ["fdef", _, lang, d, rs, c] =>
+    return { s with fdefs := s.fdefs.push { lang := natOf lang, depth := natOf d, ranges := parseRgs rs, caps := parseFCaps c } }
+  | ["fnew", lang, d, rs, ids] =>
+    return { s with fnews := s.fnews.push { lang := natOf lang, depth := natOf d, ranges := parseRgs rs, ids := parseNats ids } }
+  | ["ftop", root, t] => IO.println (runFMerge s (natOf root) (parseNats t)); return s
   | ["run", "lmerge"] => IO.println (runLMerge s); return s
   | ["ir", incl, ps, ns, res, real] =>
     -- with the re-export hook: the REAL private intersect_ranges' answer as well
